@@ -164,7 +164,7 @@ func PanicSafetyWith(c *Ctx, rule string, entries []*ssa.Function, cut func(*ssa
 			}
 			var hit *panicJustification
 			for k := range table {
-				if table[k].fn == shortFn(f) && strings.Contains(s.what, table[k].match) {
+				if strings.Contains(s.what, table[k].match) && justFnIs(p, table[k].fn, f) {
 					hit = &table[k]
 					break
 				}
